@@ -15,7 +15,8 @@
 (*                                                                         *)
 (* Floats never appear: observed values are naturals (the harness maps     *)
 (* them to u32 or to dyadic floats), progress is a fraction.               *)
-(* One shape per variable: act = [op,l,n,d,f,x,y,z,fm], res = [k,b,log,p,t]*)
+(* One shape per variable: act = [op,l,n,d,f,x,y,z,fm,pg],                 *)
+(* res = [k,b,log,p,t,ev]                                                  *)
 (***************************************************************************)
 EXTENDS Integers, Sequences, FiniteSets
 
@@ -27,7 +28,8 @@ CONSTANTS Lens,       \* subset of {"iter", "eval", "fval", "obj"}
           Ops,        \* operation families enabled in Next
           MaxTrials,  \* model-checking bound on rcN
           MaxDepth, MaxArity, MaxLeaves,   \* bounds of the formulas offered to `logic`
-          Eps, Opts   \* epsilons (naturals; -1 is always offered too) and known optima offered to `optimum`
+          Eps, Opts,  \* epsilons (naturals; -1 is always offered too) and known optima offered to `optimum`
+          MaxPSize, MaxPDepth   \* bounds (nodes, nesting) of the loop/scope programs offered to `nest`
 
 NoVal == -1           \* nothing there / no Boolean / PartialEq checker instead of a threshold
 Gone  == -2           \* the state type the lens reads is absent altogether
@@ -80,13 +82,17 @@ EvSeq(k, cs, id, i, acc) ==
          ELSE EvSeq(k, cs, id, i + 1, [r |-> Comb(k, acc.r, x.r), log |-> lg])
 
 ---------------------------------------------------------------------------
-R(k, b, log, p, t) == [k |-> k, b |-> b, log |-> log, p |-> p, t |-> t]
+R(k, b, log, p, t) == [k |-> k, b |-> b, log |-> log, p |-> p, t |-> t, ev |-> <<>>]
 B2N(b) == IF b THEN 1 ELSE 0
 RB(b)  == R("bool", B2N(b), <<>>, NoVal, NoVal)
 RErr   == R("err", NoVal, <<>>, NoVal, NoVal)
 ROk    == R("ok", NoVal, <<>>, NoVal, NoVal)
+(* Programs of `nest`: nodes [k, n, c]; k in {"block","tick","set","loop","scope"}; n = bound *)
+(* of a loop / value of a set; c = children.  Identity by position as for formulas.           *)
+PNode(k, n, c) == [k |-> k, n |-> n, c |-> c]
+NoProg == PNode("none", 0, <<>>)
 A(op, l, n, d, f, x, y, z, fm) ==
-    [op |-> op, l |-> l, n |-> n, d |-> d, f |-> f, x |-> x, y |-> y, z |-> z, fm |-> fm]
+    [op |-> op, l |-> l, n |-> n, d |-> d, f |-> f, x |-> x, y |-> y, z |-> z, fm |-> fm, pg |-> NoProg]
 
 Readable(l) == obs[l] >= 0
 
@@ -195,6 +201,78 @@ Loop(n, f) ==
         /\ UNCHANGED <<prev, rcN, rcK>>
 
 ---------------------------------------------------------------------------
+(* Loops and scopes nested in one another (`nest`).  A program is a tree of *)
+(*   loop(n, body)  Loop(while less-than-n(iterations), body)               *)
+(*   scope(body)    Scope: the body is initialised and run in a child state *)
+(*   tick           a component that reports what it sees                   *)
+(*   set(v)         a component that inserts Iterations(v) into its scope   *)
+(* run as a configuration run does (init, require, execute) on the current  *)
+(* state.  The state is a chain of scopes (root first); each scope may own  *)
+(* an iteration counter `it` and a progress `pr`; reads and in-place writes *)
+(* go to the innermost scope that owns one, inserts to the top scope.       *)
+(* The reply is the sequence of observations [id, k, v, num, den]:          *)
+(*   k = "test": loop id has just evaluated its condition on counter v,     *)
+(*   k = "tick": tick id ran, k = "in" / "out": just before scope id is     *)
+(*   entered / just after it is left; v = the counter visible there,        *)
+(*   num/den = the progress visible there.                                  *)
+NoFr == Frac(-9, -9)                      \* no progress visible
+Fr(it, pr) == [it |-> it, pr |-> pr]
+PE(id, k, v, fr) == [id |-> id, k |-> k, v |-> v, num |-> fr.num, den |-> fr.den]
+MaxOf(S) == CHOOSE x \in S : \A y \in S : y <= x
+OwnerIt(ch) == LET S == {i \in DOMAIN ch : ch[i].it # NoVal} IN IF S = {} THEN 0 ELSE MaxOf(S)
+OwnerPr(ch) == LET S == {i \in DOMAIN ch : ch[i].pr # NoFr} IN IF S = {} THEN 0 ELSE MaxOf(S)
+VisIt(ch) == IF OwnerIt(ch) = 0 THEN NoVal ELSE ch[OwnerIt(ch)].it
+VisPr(ch) == IF OwnerPr(ch) = 0 THEN NoFr ELSE ch[OwnerPr(ch)].pr
+Seen(s, id, k) == [s EXCEPT !.ev = Append(@, PE(id, k, VisIt(s.ch), VisPr(s.ch)))]
+
+(* s = [ch, ev, ok]: scope chain, observations so far, no error so far.     *)
+RECURSIVE PInitNode(_, _), PInitBody(_, _, _), PExecBody(_, _, _, _), PExecNode(_, _, _), PLoop(_, _, _)
+\* Loop::init: counter 0 and the condition's progress 0 into the top scope, then the body;
+\* a Scope initialises its body only when it is executed
+PInitNode(node, s) ==
+    IF node.k = "loop" THEN PInitBody(node.c, 1, [s EXCEPT !.ch[Len(s.ch)] = Fr(0, Frac(0, 1))]) ELSE s
+PInitBody(c, i, s) == IF i > Len(c) THEN s ELSE PInitBody(c, i + 1, PInitNode(c[i], s))
+PExecBody(c, pid, i, s) ==
+    IF i > Len(c) \/ ~s.ok THEN s ELSE PExecBody(c, pid, i + 1, PExecNode(c[i], 10 * pid + i, s))
+PExecNode(node, id, s) ==
+    CASE node.k = "tick"  -> Seen(s, id, "tick")
+      [] node.k = "set"   -> [s EXCEPT !.ch[Len(s.ch)].it = node.n]
+      [] node.k = "scope" ->
+            LET s1 == [Seen(s, id, "in") EXCEPT !.ch = Append(@, Fr(NoVal, NoFr))]
+                s2 == PExecBody(node.c, id, 1, PInitBody(node.c, 1, s1))
+                s3 == [s2 EXCEPT !.ch = SubSeq(@, 1, Len(@) - 1)]
+            IN IF s2.ok THEN Seen(s3, id, "out") ELSE s3
+      [] node.k = "loop"  -> PLoop(node, id, [s EXCEPT !.ch[Len(s.ch)].pr = Frac(0, 1)])   \* condition re-initialised
+\* test (writes progress = counter / n where the progress lives), pass, increment (where the counter lives)
+PLoop(node, id, s) ==
+    LET v == VisIt(s.ch) IN
+    IF ~s.ok THEN s
+    ELSE IF v = NoVal THEN [s EXCEPT !.ok = FALSE]
+    ELSE LET s1 == Seen([s EXCEPT !.ch[OwnerPr(s.ch)].pr = Reduce(v, node.n)], id, "test") IN
+         IF v < node.n
+         THEN LET s2 == PExecBody(node.c, id, 1, s1) IN
+              IF ~s2.ok THEN s2 ELSE PLoop(node, id, [s2 EXCEPT !.ch[OwnerIt(s2.ch)].it = @ + 1])
+         ELSE s1
+
+\* a `set` that shares its scope with a loop around it could keep that loop running forever: not offered
+RECURSIVE SetInLoop(_, _)
+SetInLoop(c, inloop) ==
+    \E i \in DOMAIN c : \/ c[i].k = "set" /\ inloop
+                        \/ c[i].k = "loop" /\ SetInLoop(c[i].c, TRUE)
+                        \/ c[i].k = "scope" /\ SetInLoop(c[i].c, FALSE)
+RECURSIVE PKinds(_)
+PKinds(c) == \A i \in DOMAIN c : c[i].k \in {"tick", "set", "loop", "scope"} /\ c[i].n >= 0 /\ PKinds(c[i].c)
+
+Nest(pg) ==
+    LET s0 == [ch |-> <<Fr(obs["iter"], progress["iter"])>>, ev |-> <<>>, ok |-> TRUE]
+        s  == PExecBody(pg.c, 1, 1, PInitBody(pg.c, 1, s0)) IN
+    /\ pg.k = "block" /\ PKinds(pg.c) /\ ~SetInLoop(pg.c, FALSE)
+    /\ res' = [R(IF s.ok THEN "ok" ELSE "err", NoVal, <<>>, NoVal, NoVal) EXCEPT !.ev = s.ev]
+    /\ obs' = [obs EXCEPT !["iter"] = s.ch[1].it]
+    /\ progress' = [progress EXCEPT !["iter"] = s.ch[1].pr]
+    /\ UNCHANGED <<prev, rcN, rcK>>
+
+---------------------------------------------------------------------------
 Do(a) ==
     /\ act' = a
     /\ CASE a.op = "set"        -> SetObs(a.l, a.x)
@@ -209,6 +287,7 @@ Do(a) ==
          [] a.op = "rc_end"     -> RcEnd(a.n)
          [] a.op = "logic"      -> Logic(a.fm)
          [] a.op = "loop"       -> Loop(a.n, a.f)
+         [] a.op = "nest"       -> Nest(a.pg)
 
 (* Formulas offered by the model: depth <= d, exactly n leaves, arity <= MaxArity. *)
 Outcomes == {"t", "f", "e"}
@@ -295,8 +374,27 @@ LogicNext ==
                       \/ MaxArity >= 3 /\ \E n3 \in 0..(MaxLeaves - n1 - n2) : \E z \in Sub(n3) :
                             \E k \in AndOr : LogicAct(Node(k, <<x, y, z>>))
 
+(* The programs offered to `nest`: every forest of at most MaxPSize nodes nested at most      *)
+(* MaxPDepth deep, loop bounds from Ns, set values from Val; offered on the state of a fresh   *)
+(* run (from other states: the random histories of the harness).                               *)
+RECURSIVE PNodes(_, _), PBodies(_, _)
+PNodes(m, d) ==
+    (IF m = 1 THEN {PNode("tick", 0, <<>>)} \cup {PNode("set", v, <<>>) : v \in Val} ELSE {})
+    \cup (IF d = 0 THEN {}
+          ELSE UNION {{PNode("loop", n, b) : n \in Ns} \cup {PNode("scope", 0, b)} : b \in PBodies(m - 1, d - 1)})
+PBodies(sz, d) ==
+    IF sz = 0 THEN {<<>>}
+    ELSE UNION {{<<x>> \o r : x \in PNodes(m, d), r \in PBodies(sz - m, d)} : m \in 1..sz}
+NestProgs == UNION {PBodies(sz, MaxPDepth) : sz \in 0..MaxPSize}     \* a constant: TLC evaluates it once
+NestNext ==
+    /\ "nest" \in Ops /\ "iter" \in Lens
+    /\ obs["iter"] = NoVal /\ progress["iter"] = Frac(0, 1)
+    /\ \E b \in NestProgs : ~SetInLoop(b, FALSE) /\ Do([A("nest", "iter", Z, Z, "init", Z, Z, Z, NoForm)
+                                                          EXCEPT !.pg = PNode("block", 0, b)])
+
 Next == \/ \E a \in Acts : (a.op = "rc" => rcN[a.n] < MaxTrials) /\ OptDomain(a) /\ Do(a)
         \/ LogicNext
+        \/ NestNext
 
 Spec == Init /\ [][Next]_vars
 
@@ -412,5 +510,76 @@ LoopFromAnywhere ==
           /\ res'.k = "ok" /\ res'.p = k /\ res'.t = k + 1
           /\ res'.log = [i \in 1..k |-> v + i - 1]
           /\ obs'["iter"] = v + k ]_vars
+
+---------------------------------------------------------------------------
+(* Loops under scopes.  Stated on the program text and the observations,   *)
+(* without the scope chain: in a program in which every scope hosts at most *)
+(* one loop (WellScoped: a loop nested in another loop sits in a Scope of   *)
+(* its own, as the Loop documentation demands) and nothing else writes the  *)
+(* counter, every loop counts on its own: the observations are those of the *)
+(* lexical reading below, where a tick / a scope border sees the counter    *)
+(* and progress k / n of the innermost loop running around it (0 and 0/1    *)
+(* before that loop starts in the scope that hosts it, n and n/n after it), *)
+(* whatever loops run further inside or outside.                            *)
+RECURSIVE LL(_, _)
+LL(c, i) == IF i > Len(c) THEN 0
+            ELSE (IF c[i].k = "loop" THEN 1 + LL(c[i].c, 1) ELSE 0) + LL(c, i + 1)
+LevelLoops(c) == LL(c, 1)                     \* loops that share the scope of this body
+RECURSIVE HasSet(_), WellScoped(_), ScopesOK(_)
+HasSet(c) == \E i \in DOMAIN c : c[i].k = "set" \/ HasSet(c[i].c)
+ScopesOK(c) == \A i \in DOMAIN c : /\ c[i].k = "scope" => WellScoped(c[i].c)
+                                   /\ c[i].k = "loop" => ScopesOK(c[i].c)
+WellScoped(c) == LevelLoops(c) <= 1 /\ ScopesOK(c)
+
+Env(v, fr) == [v |-> v, fr |-> fr]
+Start(c, env) == IF LevelLoops(c) > 0 THEN Env(0, Frac(0, 1)) ELSE env
+RECURSIVE IBody(_, _, _, _), INode(_, _, _), ILoop(_, _, _, _)
+IBody(c, pid, i, r) ==
+    IF i > Len(c) THEN r
+    ELSE LET x == INode(c[i], 10 * pid + i, r.env) IN
+         IBody(c, pid, i + 1, [ev |-> r.ev \o x.ev, env |-> x.env])
+INode(node, id, env) ==
+    CASE node.k = "tick"  -> [ev |-> <<PE(id, "tick", env.v, env.fr)>>, env |-> env]
+      [] node.k = "scope" ->
+            LET b == IBody(node.c, id, 1, [ev |-> <<>>, env |-> Start(node.c, env)]) IN
+            [ev |-> <<PE(id, "in", env.v, env.fr)>> \o b.ev \o <<PE(id, "out", env.v, env.fr)>>, env |-> env]
+      [] node.k = "loop"  -> ILoop(node, id, 0, <<>>)
+ILoop(node, id, k, acc) ==                    \* n passes with the counter at 0 .. n-1, n + 1 tests
+    LET e == Env(k, Reduce(k, node.n))
+        t == Append(acc, PE(id, "test", k, e.fr)) IN
+    IF k < node.n THEN ILoop(node, id, k + 1, t \o IBody(node.c, id, 1, [ev |-> <<>>, env |-> e]).ev)
+    ELSE [ev |-> t, env |-> e]
+
+NestExact ==
+    [][ Is("nest") /\ WellScoped(act'.pg.c) /\ ~HasSet(act'.pg.c) =>
+          LET c == act'.pg.c
+              r == IBody(c, 1, 1, [ev |-> <<>>, env |-> Start(c, Env(obs["iter"], progress["iter"]))]) IN
+          /\ res'.k = "ok" /\ res'.ev = r.ev
+          /\ obs'["iter"] = r.env.v /\ progress'["iter"] = r.env.fr
+          /\ OthersKeep(obs', obs, "iter") /\ OthersKeep(progress', progress, "iter")
+          /\ <<prev, rcN, rcK>>' = <<prev, rcN, rcK>> ]_vars
+
+\* the same in the words of the property: every loop of such a program tests its condition on
+\* 0, 1, .., n, again and again (n passes and n + 1 tests per run of the loop), showing progress v / n
+RECURSIVE LoopsOf(_, _)
+LoopsOf(c, pid) == UNION {(IF c[i].k = "loop" THEN {<<10 * pid + i, c[i].n>>} ELSE {})
+                          \cup LoopsOf(c[i].c, 10 * pid + i) : i \in DOMAIN c}
+Sel(ev, id, k) == SelectSeq(ev, LAMBDA e : e.id = id /\ e.k = k)
+NestOwnCounter ==
+    [][ Is("nest") /\ WellScoped(act'.pg.c) /\ ~HasSet(act'.pg.c) =>
+          \A p \in LoopsOf(act'.pg.c, 1) :
+              LET t == Sel(res'.ev, p[1], "test")  n == p[2] IN
+              /\ Len(t) % (n + 1) = 0
+              /\ \A i \in 1..Len(t) : /\ t[i].v = (i - 1) % (n + 1)
+                                      /\ Frac(t[i].num, t[i].den) = Reduce(t[i].v, n) ]_vars
+
+\* whatever runs inside a scope (loops, sets, further scopes), the counter and progress seen
+\* just after the scope are those seen just before it -- for every program offered
+ScopeIsolates ==
+    [][ Is("nest") /\ res'.k = "ok" =>
+          \A id \in {res'.ev[i].id : i \in DOMAIN res'.ev} :
+              LET a == Sel(res'.ev, id, "in")  b == Sel(res'.ev, id, "out") IN
+              /\ Len(a) = Len(b)
+              /\ \A i \in 1..Len(a) : <<a[i].v, a[i].num, a[i].den>> = <<b[i].v, b[i].num, b[i].den>> ]_vars
 
 =============================================================================
